@@ -12,6 +12,8 @@ from vf.hyp import drive, st
 from vf.runner import Collector
 
 ID = "C19"
+ALL_REGIONS = ("bias_gelu_bias_len_mismatch,rotary_position_ids_not_per_batch,rotary_cos_cache_shorter_than_sequence,"
+               "fused_matmul_div_const_rank_ge2,fused_matmul_non_float,fused_matmul_transpose_of_mixed_trans,mha_bias_not_1d,rms_scale_cast_without_target_cast,sdpa_nan_guard_fully_masked_row")
 LEVEL = "exploration"
 RULE = ("Hypothesis-parametrised host models (vf/fusionhosts.py, built with onnx.helper only) for each ORT fusion family - RMS norm, "
         "skip RMS/Layer norm, GELU tanh/erf, bias-GELU, rotary embedding (+cos/sin cache, partial), SDPA, MHA (+bias, +Attention, "
@@ -28,15 +30,46 @@ ASSUMPTIONS = ["onnxruntime 1.30 CPU kernels (incl. com.microsoft contrib ops) e
                "of the fused operators", "onnx.reference is an independent second opinion on the *source* model only",
                "tolerances: float32 rtol 1e-3 / atol 1e-3*max(1,|out|max); float16 rtol 2e-2 / atol 2e-2*max(1,|out|max)",
                "vf/fusionhosts.py emits valid ONNX (hosts that neither runtime executes are skipped and counted)"]
-FLOOR = {"quick": 400, "thorough": 4000}
+FLOOR = {"quick": 800, "thorough": 8000} if not os.environ.get("VERIF_ONLY") else {"quick": 1, "thorough": 1}
 TIMEOUT = {"quick": 1200, "thorough": 4 * 3600}
-EXCLUDE: set = set(x for x in os.environ.get("VERIF_C19_EXCLUDE", "").split(",") if x)  # development only: named regions (see REGIONS)
+EXCLUDE: set = set(x for x in os.environ.get("VERIF_C19_EXCLUDE", "").replace("ALL", ALL_REGIONS).split(",") if x)  # development only: named regions (see REGIONS)
 
 # fusions that must fire at least this often per run, else the run is a harness error (generator rotted)
 MIN_FIRED = {"quick": 10, "thorough": 100}
 REQUIRED_FUSIONS = ["rms_normalization", "skip_rms_normalization", "skip_layer_normalization", "gelu", "erf_gelu", "bias_gelu",
                     "rotary_embedding", "cos_sin_cache", "partial_rotary_embedding", "sdpa", "sdpa_via_mha", "mha", "mha_bias",
                     "attention", "fused_matmul", "softmax"]
+
+
+
+# ----------------------------------------------------------------------------- named regions of recorded findings
+def _p(case):
+    return case.get("params", {})
+
+
+REGIONS = {
+    # BiasGelu needs bias length == last dim of the input; the rule only checks rank(bias) == 1
+    "bias_gelu_bias_len_mismatch": lambda c: c["family"] == "bias_gelu" and c.get("near_miss") in ("bias_len1", "input_last1"),
+    # com.microsoft.RotaryEmbedding wants position_ids [B,S]; source broadcasts [S] / [1,S] ids over the batch
+    "rotary_position_ids_not_per_batch": lambda c: c["family"] == "rotary_embedding" and _p(c).get("mode") != "inputs" and _p(c).get("B", 1) > 1
+    and (_p(c).get("pos_rank") == 1 or _p(c).get("pos_batch1")),
+    # cos/sin cache is sized max(position_ids)+1 at run time; ids whose maximum is < S-1 give a cache shorter than the sequence
+    "rotary_cos_cache_shorter_than_sequence": lambda c: c["family"] == "rotary_embedding" and _p(c).get("pos_mode") == "random"
+    and not _p(c).get("pos_const"),
+    # float(ndarray of shape (1,1)) raises under numpy 2
+    "fused_matmul_div_const_rank_ge2": lambda c: c["family"] == "fused_matmul" and (_p(c).get("div") == "scalar11" or c.get("near_miss") == "div_rank3"),
+    # rules never look at the element type; FusedMatMul is float-only
+    "fused_matmul_non_float": lambda c: c["family"] == "fused_matmul" and c.get("near_miss") == "int32",
+    # Transpose(FusedMatMul(x, y, transA != transB)) flips each flag instead of exchanging them
+    "fused_matmul_transpose_of_mixed_trans": lambda c: c["family"] == "fused_matmul" and _p(c).get("t_out") and _p(c).get("transA") != _p(c).get("transB"),
+    # scale is Cast to the compute type and the product is not cast back: result type is the compute type, the fused op yields the scale type
+    "rms_scale_cast_without_target_cast": lambda c: c["family"] == "rms_normalization" and _p(c).get("cast_scale") and not _p(c).get("cast_out")
+    and _p(c).get("dtype") == "float16",
+    # SDPA drops the Where(IsNaN(softmax), 0, softmax) guard: a query row whose keys are all masked with -inf gives 0 in M, NaN after
+    "sdpa_nan_guard_fully_masked_row": lambda c: c["family"] in ("sdpa", "mha") and bool(_p(c).get("mask_inf_row")),
+    # mha_bias does not check that the q/k/v biases are 1-D
+    "mha_bias_not_1d": lambda c: c["family"] == "mha" and c.get("near_miss") == "bias_rank3" and _p(c).get("bias") != "none",
+}
 
 FUSED_OPS = {("", "SimplifiedLayerNormalization"), ("com.microsoft", "SkipSimplifiedLayerNormalization"),
              ("com.microsoft", "SkipLayerNormalization"), ("com.microsoft", "FastGelu"), ("com.microsoft", "Gelu"),
@@ -53,7 +86,12 @@ def _chains():
     def ruleset(rs):
         return lambda model: rs.apply_to_model(model)
 
-    sdpa_mha = [("sdpa", lambda m: core.fuse_sdpa(m, apply_shape_inference=True)), ("mha1", core.fuse_mha1), ("mha2", core.fuse_mha2),
+    def cse(model):
+        core.common_passes.CommonSubexpressionEliminationPass()(model)
+        return 0
+
+    sdpa_mha = [("rotary_embedding", core.fuse_rotary_embedding), ("cos_sin_cache", core.fuse_cos_sin_cache), ("cse", cse),
+                ("sdpa", lambda m: core.fuse_sdpa(m, apply_shape_inference=True)), ("mha1", core.fuse_mha1), ("mha2", core.fuse_mha2),
                 ("mha_scale", core.fuse_mha_scale), ("mha_bias", core.fuse_mha_bias), ("attention", core.fuse_attention),
                 ("sdpa_via_mha", core.replace_sdpa_by_mha)]
     return {
@@ -107,6 +145,21 @@ def _ops(model):
 def fused_ops_added(before, after):
     b, a = _ops(before), _ops(after)
     return sorted(f"{d or 'onnx'}.{o}" for (d, o) in (a - b) if (d, o) in FUSED_OPS)
+
+
+def _softmax_upcast_removed(before, after):
+    """True iff `before` has Cast(float16 -> FLOAT) -> Softmax -> Cast(-> FLOAT16) and `after` feeds that Softmax directly."""
+    f16_inputs = {i.name for i in before.graph.input if i.type.tensor_type.elem_type == onnx.TensorProto.FLOAT16}
+    prod = {o: n for n in before.graph.node for o in n.output}
+    upcast = False
+    for n in before.graph.node:
+        if n.op_type == "Softmax" and n.input[0] in prod and prod[n.input[0]].op_type == "Cast" and prod[n.input[0]].input[0] in f16_inputs:
+            cons = [c for c in before.graph.node if n.output[0] in c.input]
+            if len(cons) == 1 and cons[0].op_type == "Cast" and any(a.name == "to" and a.i == onnx.TensorProto.FLOAT16 for a in cons[0].attribute):
+                upcast = True
+    if not upcast:
+        return False
+    return any(n.op_type == "Softmax" and n.input[0] in f16_inputs for n in after.graph.node)
 
 
 _UNAVAILABLE = ("NOT_IMPLEMENTED", "Could not find an implementation", "Kernel not found", "Failed to find kernel")
@@ -210,9 +263,8 @@ def check(model, unit, chain, feeds_list):
     info["counts"] = counts
     info["fired"] = fused_ops_added(model, new)
     info["changed"] = optcommon.folded_or_rewritten(model, new)
-    ob, oa = optcommon.op_multiset(model), optcommon.op_multiset(new)
-    if ob[("", "Softmax")] and oa[("", "Cast")] < ob[("", "Cast")] and not any(d for d, _ in oa):
-        counts.setdefault("softmax", 1)  # the upcast-removal rule leaves no new operator behind: detect it by the vanished Casts
+    if "softmax" not in counts and _softmax_upcast_removed(model, new):
+        counts["softmax"] = 1  # the upcast-removal rule leaves no new operator behind (and rewrite() returns no counts)
     info["fired_any"] = bool(info["fired"]) or any(counts.values())
     fired_names = "+".join(sorted(k for k, v in counts.items() if v)) or "+".join(info["fired"]) or "none"
     # 3. result on ORT
@@ -244,29 +296,32 @@ def check(model, unit, chain, feeds_list):
         d = compare.same_outputs(exp, c[1], rel=rel, abs_=abs_)
         if d:
             info["verdict"] = "values"
-            what = "shape" if "shape " in d else ("dtype" if "dtype " in d else ("count" if "output count" in d else "values"))
-            verdicts.append((f"{what}:{fired_names}", d + " | input " + str(compare._feeds_repr(feeds))[:300]))
+            what = "shape" if "shape " in d else ("dtype" if "dtype " in d else ("count" if "output count" in d else ("nan" if "NaN positions" in d else "values")))
+            present = "+".join(sorted({o for (dom, o) in _ops(new) if (dom, o) in FUSED_OPS})) or "none"
+            verdicts.append((f"{what}:{present}", f"fusions {fired_names}: {d} | input {str(compare._feeds_repr(feeds))[:300]}"))
             return verdicts, info
     info["verdict"] = ("equal_by_reference" if by_ref else "equal") if info["changed"] else "unchanged"
     return verdicts, info
 
 
 # ----------------------------------------------------------------------------- plan / run
-GROUPS = [["rms_normalization"], ["skip_normalization"], ["gelu"], ["bias_gelu"], ["rotary_embedding"], ["rotary_embedding"], ["sdpa"],
-          ["sdpa"], ["mha"], ["mha"], ["mha"], ["fused_matmul"], ["softmax", "instance_to_group_normalization"], ["skip_normalization"],
-          ["fused_matmul"], ["rms_normalization", "gelu", "bias_gelu"]]
+# (families, weight): 16 shard groups; the attention hosts are the most expensive per case, so they get fewer cases per shard
+GROUPS = [(["rms_normalization"], 1.0), (["skip_normalization"], 1.0), (["gelu"], 1.0), (["bias_gelu"], 1.0), (["rotary_embedding"], 0.8),
+          (["rotary_embedding"], 0.8), (["sdpa"], 0.9), (["sdpa"], 0.9), (["mha"], 0.6), (["mha"], 0.6), (["mha"], 0.6), (["fused_matmul"], 1.2),
+          (["softmax", "instance_to_group_normalization"], 1.0), (["skip_normalization"], 1.0), (["fused_matmul"], 1.2),
+          (["rms_normalization", "gelu", "bias_gelu"], 1.0)]
 
 
 def plan(tier, seed, budget):
-    n = int((260 if tier == "quick" else 6000) * budget)
+    n = int((420 if tier == "quick" else 6400) * budget)
     only = os.environ.get("VERIF_ONLY")
     reps = 1 if tier == "quick" else 4
     specs = []
-    for grp in GROUPS:
+    for grp, w in GROUPS:
         if only and not any(only in f for f in grp):
             continue
         for r in range(reps):
-            specs.append({"families": grp, "n": max(1, n // reps), "rep": r})
+            specs.append({"families": grp, "n": max(1, int(n * w) // reps), "rep": r})
     return specs
 
 
@@ -289,9 +344,12 @@ def run_shard(spec):
 
     def body(case):
         host, unit, seeds = case
-        if host.near_miss in EXCLUDE or f"{host.family}:{host.near_miss}" in EXCLUDE:
-            col.exclude(f"{host.family}:{host.near_miss}")
-            return
+        if EXCLUDE:
+            hc = {"family": host.family, "near_miss": host.near_miss, "params": host.params}
+            hit = [r for r in sorted(EXCLUDE) if r in REGIONS and REGIONS[r](hc)]
+            if hit:
+                col.exclude(hit[0])
+                return
         feeds_list = [fusionhosts.make_feeds(host.feeds, s) for s in seeds]
         verdicts, info = check(host.model, unit, host.chain, feeds_list)
         v = info["verdict"]
@@ -327,6 +385,9 @@ def run_shard(spec):
     strat = st.tuples(st.sampled_from(fams).flatmap(lambda f: f()), st.sampled_from(["chain", "chain", "optimize_for_ort"]),
                       st.tuples(st.integers(0, 10**6), st.integers(0, 10**6)))
     drive(strat, body, spec["n"], spec["seed"])
+    import onnxscript
+
+    col.extra["code_under_test"] = os.path.dirname(onnxscript.__file__)
     col.extra["fired_per_fusion"] = fired_total
     col.extra["fused_ops_introduced"] = fired_ops
     return col.result()
